@@ -561,6 +561,7 @@ func (r *vfC13Run) avoidKnownShapes(o vfC13Op, post *vfC13Model) (drop bool) {
 var vfC13Reproductions = []struct{ Sig, Script string }{
 	{vfC13SigPagedRevocationToken, "open defaultCollection=true; user u chans=[B C]; put d2 chans=[B]; put d3 chans=[C]; pull limits=[0]; user u chans=[C]; user u chans=[]; put d2 chans=[B]; pull limits=[1]"},
 	{vfC13SigResumeForgetsLoss, "open defaultCollection=true; user u chans=[A]; put d1 chans=[A]; put d2 chans=[A]; pull limits=[0]; user u chans=[]; put d2 chans=[B]; user u chans=[A]; user u chans=[]; pull limits=[1]"},
+	{vfC13SigCoalescedInvalidation, "open defaultCollection=true; role r2 chans=[]; user u chans=[B]; put d2 chans=[] role([u],[role:r2]); put d3 chans=[] access([u],[A]); put d1 chans=[A]; pull limits=[0]; user u chans=[]; put d1 chans=[A]; del d3; del d2; role r2 chans=[A]; delrole r2; pull limits=[1]"},
 	{vfC13SigBackfillDeletion, "open defaultCollection=true; user u chans=[C]; put d5 chans=[C]; pull limits=[0]; user u chans=[]; del d5; user u chans=[C]; pull limits=[0]"},
 	{vfC13SigBackfillRemoval, "open defaultCollection=true; user u chans=[C]; put d5 chans=[C]; pull limits=[0]; user u chans=[]; put d5 chans=[B]; user u chans=[C]; pull limits=[0]"},
 	{vfC13SigSourceSwitch, "open defaultCollection=true; role r1 chans=[C]; user u chans=[C]; put d5 chans=[C]; pull limits=[0]; del d5; user u chans=[C] roles=[r1]; user u chans=[] roles=[r1]; pull limits=[0]"},
